@@ -20,6 +20,8 @@ A21  == Arr(<<IntV(2), IntV(1)>>, <<>>)
 AA1  == Arr(<<A1>>, <<>>)
 AD   == Arr(<<IntV(1)>>, <<[k |-> [k |-> "str", s |-> "k"], v |-> IntV(2)]>>)
 AN   == Arr(<<NaN>>, <<>>)
+ADO  == Arr(<<>>, <<[k |-> [k |-> "str", s |-> "k"], v |-> IntV(2)]>>)      \* entries under non-numeric keys only: its sequence is empty
+AMY  == Arr(<<Myst, Myst>>, <<>>)                                           \* two elements, both mysterious
 AS   == Arr(<<Str("a"), Str("b")>>, <<>>)
 ASD  == Arr(<<Str("a")>>, <<[k |-> [k |-> "null"], v |-> Str("n")], [k |-> [k |-> "bool", b |-> FALSE], v |-> Str("f")],
                             [k |-> [k |-> "bool", b |-> TRUE], v |-> Str("t")], [k |-> [k |-> "str", s |-> "b"], v |-> Str("y")],
@@ -35,7 +37,7 @@ UScalar == { Myst, Null, Bool(TRUE), Bool(FALSE),
              Huge, NHuge, NaN, PInf, NInf, Tiny(1, TinyText), Tiny(-1, TinyText),
              Str(""), Str("a"), Str("b"), Str("ab"), Str("0"), Str("1"), Str(" 1"), Str("1.5"), Str("-0"),
              Str("nan"), Str("inf"), Str("true"), Str("2") }
-UArr    == { EmptyArr, A1, A12, A21, AA1, AD, AN, AS }
+UArr    == { EmptyArr, A1, A12, A21, AA1, AD, AN, AS, ADO, AMY }
 UMore   == { Big(1, "2147483648"), Big(1, "4294967361"), Big(-1, "4294967230"), Big(1, "9007199254740992"),
              IntV(65), IntV(233), IntV(1114111), IntV(1114112), IntV(55296), Fin(4192),
              Str("1e1"), Str("Infinity"), Str("+1"), Str("1."), Str(".5"), Str("0.1"), Str("a,b"), Str("~a"),
@@ -59,7 +61,7 @@ UJoin   == { EmptyArr, AS, Norm(ASD), A1, Arr(<<Str("a"), IntV(1)>>, <<>>), Arr(
              Arr(<<>>, <<[k |-> [k |-> "str", s |-> "k"], v |-> Str("v")]>>), Arr(<<>>, <<[k |-> [k |-> "str", s |-> "k"], v |-> IntV(1)]>>),
              Arr(<<>>, <<[k |-> [k |-> "null"], v |-> Str("n")], [k |-> [k |-> "str", s |-> "k"], v |-> Str("v")]>>) }
 UJDelim == { NoParam, Str(""), Str(","), Str("-"), IntV(1), Myst, A1 }
-UCastN  == { Tiny(1, TinyText), Tiny(-1, TinyText), IntV(65), IntV(97), IntV(233), IntV(0), NZero, IntV(-1), Fin(4192), IntV(1114111), IntV(1114112),
+UCastN  == { Tiny(1, TinyText), Tiny(-1, TinyText), IntV(65), IntV(97), IntV(233), IntV(9), IntV(10), IntV(32), IntV(34), IntV(66), IntV(92), IntV(126), IntV(127), IntV(0), NZero, IntV(-1), Fin(4192), IntV(1114111), IntV(1114112),
              IntV(55295), IntV(55296), IntV(57343), IntV(57344), NaN, PInf, NInf, Huge, NHuge,
              Big(1, "2147483648"), Big(1, "4294967361"), Big(-1, "4294967230"), Big(1, "4294967296"),
              Big(1, "9223372036854776000") }
@@ -84,6 +86,7 @@ Sh(S, n) == LET q == SetToSeq(S) IN { q[i] : i \in { j \in 1..Len(q) : j % NS = 
 
 CasesOf(kind, n) ==
   CASE kind = "bin"      -> [k : {"bin"}, op : BinOps, a : Sh(UBig, n), b : UBig]
+    [] kind = "abin"     -> [k : {"bin"}, op : BinOps, a : Sh(UArr, n), b : UBig] \cup [k : {"bin"}, op : BinOps, a : Sh(UBig, n), b : UArr]   \* an array on either side
     [] kind = "fold"     -> [k : {"fold"}, op : Sh(BinOps, n), a : U6, b1 : U6, b2 : U6]
     [] kind = "compound" -> [k : {"compound"}, op : Sh(ArithOps, n), a : U6, b1 : U6, b2 : U6]
     [] kind = "un"       -> [k : {"un"}, op : {"neg", "not"}, a : Sh(UBig, n)]
